@@ -1,0 +1,45 @@
+//! Verification hooks (only compiled with `--cfg qbice_verif`).
+//!
+//! A test harness may install one process-wide callback that is invoked at
+//! a handful of labelled points inside the engine. The callback may block the
+//! calling thread (rendezvous between threads). Without an installed callback
+//! a point costs one relaxed atomic load.
+
+use std::sync::{
+    Arc, RwLock,
+    atomic::{AtomicBool, Ordering},
+};
+
+pub use crate::engine::computation_graph::{
+    CompressedBackwardEdgeSet, OwnedLock, QueryLock,
+    VerifQueryLockManager as QueryLockManager,
+};
+
+/// The callback type: receives the label of the point that was reached.
+pub type Hook = Arc<dyn Fn(&'static str) + Send + Sync>;
+
+static INSTALLED: AtomicBool = AtomicBool::new(false);
+static HOOK: RwLock<Option<Hook>> = RwLock::new(None);
+
+/// Installs (or removes) the process-wide callback.
+pub fn set_hook(hook: Option<Hook>) {
+    let mut guard = HOOK.write().unwrap_or_else(std::sync::PoisonError::into_inner);
+    INSTALLED.store(hook.is_some(), Ordering::SeqCst);
+    *guard = hook;
+}
+
+/// Reports that the point `label` was reached.
+pub fn point(label: &'static str) {
+    if !INSTALLED.load(Ordering::Relaxed) {
+        return;
+    }
+
+    let hook = HOOK
+        .read()
+        .unwrap_or_else(std::sync::PoisonError::into_inner)
+        .clone();
+
+    if let Some(hook) = hook {
+        hook(label);
+    }
+}
